@@ -377,9 +377,9 @@ func scenarios(tier string, yield func(any) bool) {
 }
 
 func bounds(tier string) explore.Bounds {
-	b := explore.DefaultBounds(1)
-	b[explore.KSched] = 2
-	b[explore.KSelect] = 2 // a select taking a later ready case counts against the joint budget
+	b := explore.DefaultBounds(2)
+	b[explore.KSched] = 4
+	b[explore.KSelect] = 3 // a select taking a later ready case counts against the joint budget
 	if v := os.Getenv("VERIF_B"); v != "" {
 		var sb, tb int
 		fmt.Sscanf(v, "%d,%d", &sb, &tb)
@@ -387,8 +387,8 @@ func bounds(tier string) explore.Bounds {
 		return b
 	}
 	if tier == "thorough" {
-		b[explore.KSched] = 3
-		b[explore.KTime] = 2
+		b[explore.KSched] = 5
+		b[explore.KTime] = 3
 	}
 	return b
 }
@@ -400,9 +400,9 @@ func total(tier string) int {
 		return t
 	}
 	if tier == "thorough" {
-		return 3
+		return 4
 	}
-	return 2
+	return 3
 }
 
 // deep lists the longer histories that get the full deviation budget in the quick tier.
@@ -419,8 +419,10 @@ func totalFor(tier, script string) int {
 		return t - 1
 	case tier == "thorough":
 		return t - 2
-	case (n <= 2 && !strings.Contains(script, "B")) || script == "AB" || deep[script]:
-		return t // 2
+	case (n <= 2 && !strings.Contains(script, "B")) || script == "AB":
+		return t // the full budget
+	case deep[script] && tier == "thorough":
+		return t
 	}
 	return t - 1
 }
@@ -429,7 +431,7 @@ func main() {
 	runner.Main(&runner.Harness{
 		ID:    "C09",
 		Level: "model_checking",
-		Rule: "arrival scripts over {datagram from client A, from client B, wait-for-quiescence, 31 s idle gap} up to length 4 (5 thorough) plus bursts beyond the channel capacities and socket failure, x handler behaviours {echo until end, read k then return, read with a 2-byte buffer, return without reading}; for each, every interleaving of the real servePacket loop, its reader goroutine, the handler goroutines and the timers within the preemption bound (2 quick / 3 thorough), select alternatives, early timers and pool misses within a joint deviation budget (2 for histories of <=2 datagrams and selected longer ones, 1 otherwise; +1 in thorough); states = distinct observation digests",
+		Rule: "arrival scripts over {datagram from client A, from client B, wait-for-quiescence, 31 s idle gap} up to length 4 (5 thorough) plus bursts beyond the channel capacities and socket failure, x handler behaviours {echo until end, read k then return, read with a 2-byte buffer, return without reading}; for each, every interleaving of the real servePacket loop, its reader goroutine, the handler goroutines and the timers under delay bounding (every scheduling choice other than 'continue, else lowest thread id' costs one deviation), select alternatives, early timers and pool misses within a joint deviation budget (3 for histories of <=2 datagrams and selected longer ones, 2 otherwise; +1 in thorough); states = distinct observation digests",
 		Assumptions: []string{
 			"the code under test is /repo's working tree with go/chan/select/sync/atomic/time mechanically redirected to the scheduler (tools/gomcrw)",
 			"sequential consistency; interleavings bounded by preemption count, executions run to completion",
